@@ -903,6 +903,16 @@ func (tx *Transaction) ProcessRequestHeaders() *types.Interruption {
 	return tx.interruption
 }
 
+// remainingBodyBytes is the room left in a body buffer. The limit can be lowered at run time
+// (ctl:requestBodyLimit / ctl:responseBodyLimit) below what is already buffered, so the
+// difference must not be used as a slice bound unchecked.
+func remainingBodyBytes(limit, length int64) int64 {
+	if limit <= length {
+		return 0
+	}
+	return limit - length
+}
+
 func setAndReturnBodyLimitInterruption(tx *Transaction, status int) (*types.Interruption, int, error) {
 	tx.debugLogger.Warn().Msg("Disrupting transaction with body size above the configured limit (Action Reject)")
 	// An interruption raised earlier (by a rule or by a previous over-limit write) is final,
@@ -959,7 +969,7 @@ func (tx *Transaction) WriteRequestBody(b []byte) (*types.Interruption, int, err
 		}
 
 		if tx.WAF.RequestBodyLimitAction == types.BodyLimitActionProcessPartial {
-			writingBytes = tx.RequestBodyLimit - tx.requestBodyBuffer.length
+			writingBytes = remainingBodyBytes(tx.RequestBodyLimit, tx.requestBodyBuffer.length)
 			runProcessRequestBody = true
 		}
 	}
@@ -1024,7 +1034,7 @@ func (tx *Transaction) ReadRequestBodyFrom(r io.Reader) (*types.Interruption, in
 			}
 
 			if tx.WAF.RequestBodyLimitAction == types.BodyLimitActionProcessPartial {
-				writingBytes = tx.RequestBodyLimit - tx.requestBodyBuffer.length
+				writingBytes = remainingBodyBytes(tx.RequestBodyLimit, tx.requestBodyBuffer.length)
 				runProcessRequestBody = true
 			}
 		}
@@ -1229,7 +1239,7 @@ func (tx *Transaction) WriteResponseBody(b []byte) (*types.Interruption, int, er
 		}
 
 		if tx.WAF.ResponseBodyLimitAction == types.BodyLimitActionProcessPartial {
-			writingBytes = tx.ResponseBodyLimit - tx.responseBodyBuffer.length
+			writingBytes = remainingBodyBytes(tx.ResponseBodyLimit, tx.responseBodyBuffer.length)
 			runProcessResponseBody = true
 		}
 	}
@@ -1279,7 +1289,7 @@ func (tx *Transaction) ReadResponseBodyFrom(r io.Reader) (*types.Interruption, i
 			}
 
 			if tx.WAF.ResponseBodyLimitAction == types.BodyLimitActionProcessPartial {
-				writingBytes = tx.ResponseBodyLimit - tx.responseBodyBuffer.length
+				writingBytes = remainingBodyBytes(tx.ResponseBodyLimit, tx.responseBodyBuffer.length)
 				runProcessResponseBody = true
 			}
 		}
